@@ -28,15 +28,15 @@
 #define MAXITEMS 24
 #define MAXKIDS 8
 #define MAXH 30
-enum { T_INT, T_BSTR, T_TSTR, T_IBS, T_DARR, T_IARR, T_DMAP, T_IMAP, T_TAG, T_NKINDS };
-static const char* TNAME[] = {"int", "bstr", "tstr", "ibs", "darr", "iarr", "dmap", "imap", "tag"};
+enum { T_INT, T_BSTR, T_TSTR, T_IBS, T_DARR, T_IARR, T_DMAP, T_IMAP, T_TAG, T_ITS, T_NKINDS };
+static const char* TNAME[] = {"int", "bstr", "tstr", "ibs", "darr", "iarr", "dmap", "imap", "tag", "its"};
 enum {
   O_MK = 1, O_DECREF, O_IDECREF, O_INCREF, O_SER, O_COPY, O_LOADBACK, O_GET, O_GET_OOB, O_TAG_ITEM, O_BUILD_TAG, O_PUSH, O_MOVE_PUSH, O_PUSH_FULL,
   O_SET, O_SET_OOB, O_REPLACE, O_REPLACE_OOB, O_ADD_CHUNK, O_TAG_SET, O_TAG_SET_OCC, O_MAP_ADD, O_MAP_ADD_FULL, O_MOVE_MAP_ADD, O_NOPS
 };
 static const char* ONAME[] = {"", "mk", "decref", "intermediate_decref", "incref", "serialize", "copy", "load(serialize)", "array_get", "array_get(out of range)",
                               "tag_item", "build_tag", "array_push", "array_push(cbor_move(x))", "array_push(full)", "array_set", "array_set(out of range)",
-                              "array_replace", "array_replace(out of range)", "bytestring_add_chunk", "tag_set_item", "tag_set_item(occupied)", "map_add",
+                              "array_replace", "array_replace(out of range)", "string/bytestring_add_chunk", "tag_set_item", "tag_set_item(occupied)", "map_add",
                               "map_add(full)", "map_add(cbor_move(k), v)"};
 typedef struct { uint8_t op, a, b, c; } op_t; /* meaning of a,b,c depends on op */
 typedef struct { uint8_t n; op_t h[MAXH]; uint8_t pad[3]; } hist_t;
@@ -129,6 +129,7 @@ static size_t real_nkids(cbor_item_t* it) {
     case CBOR_TYPE_MAP: return 2 * cbor_map_size(it);
     case CBOR_TYPE_TAG: return it->metadata.tag_metadata.tagged_item ? 1 : 0;
     case CBOR_TYPE_BYTESTRING: return cbor_bytestring_is_indefinite(it) ? cbor_bytestring_chunk_count(it) : 0;
+    case CBOR_TYPE_STRING: return cbor_string_is_indefinite(it) ? cbor_string_chunk_count(it) : 0;
     default: return 0;
   }
 }
@@ -138,6 +139,7 @@ static cbor_item_t* real_kid(cbor_item_t* it, size_t i) {
     case CBOR_TYPE_MAP: return (i & 1) ? cbor_map_handle(it)[i / 2].value : cbor_map_handle(it)[i / 2].key;
     case CBOR_TYPE_TAG: return it->metadata.tag_metadata.tagged_item;
     case CBOR_TYPE_BYTESTRING: return cbor_bytestring_chunks_handle(it)[i];
+    case CBOR_TYPE_STRING: return cbor_string_chunks_handle(it)[i];
     default: return NULL;
   }
 }
@@ -151,6 +153,7 @@ static cbor_item_t* mk_real(int kind) {
     case T_IARR: return cbor_new_indefinite_array();
     case T_DMAP: return cbor_new_definite_map(1);
     case T_IMAP: return cbor_new_indefinite_map();
+    case T_ITS: return cbor_new_indefinite_string();
     default: return cbor_new_tag(5);
   }
 }
@@ -158,7 +161,7 @@ static int kind_of_real(cbor_item_t* it) {
   switch (cbor_typeof(it)) {
     case CBOR_TYPE_UINT: case CBOR_TYPE_NEGINT: return T_INT;
     case CBOR_TYPE_BYTESTRING: return cbor_bytestring_is_definite(it) ? T_BSTR : T_IBS;
-    case CBOR_TYPE_STRING: return T_TSTR;
+    case CBOR_TYPE_STRING: return cbor_string_is_definite(it) ? T_TSTR : T_ITS;
     case CBOR_TYPE_ARRAY: return cbor_array_is_definite(it) ? T_DARR : T_IARR;
     case CBOR_TYPE_MAP: return cbor_map_is_definite(it) ? T_DMAP : T_IMAP;
     case CBOR_TYPE_TAG: return T_TAG;
@@ -230,6 +233,7 @@ static int enum_ops(const shadow* s, op_t* out) {
         out[n++] = (op_t){O_REPLACE_OOB, (uint8_t)a, A->nk, (uint8_t)x};
       }
       if (A->kind == T_IBS && s->it[ix].kind == T_BSTR && A->nk < (int)MAXC) out[n++] = (op_t){O_ADD_CHUNK, (uint8_t)a, (uint8_t)x, 0};
+      if (A->kind == T_ITS && s->it[ix].kind == T_TSTR && A->nk < (int)MAXC) out[n++] = (op_t){O_ADD_CHUNK, (uint8_t)a, (uint8_t)x, 0};
       if (A->kind == T_TAG && !A->nk) out[n++] = (op_t){O_TAG_SET, (uint8_t)a, (uint8_t)x, 0};
       if (A->kind == T_TAG && A->nk && e >= 0) out[n++] = (op_t){O_TAG_SET_OCC, (uint8_t)a, (uint8_t)x, (uint8_t)e};
       if (map)
@@ -339,7 +343,7 @@ static void apply(shadow* s, op_t o) {
     }
     case O_ADD_CHUNK: {
       int ix = s->slot[o.b];
-      if (!cbor_bytestring_add_chunk(real[ia], real[ix])) FAIL("add_chunk returned false");
+      if (!(s->it[ia].kind == T_ITS ? cbor_string_add_chunk(real[ia], real[ix]) : cbor_bytestring_add_chunk(real[ia], real[ix]))) FAIL("add_chunk returned false");
       s->it[ia].kid[s->it[ia].nk++] = (int8_t)ix;
       break;
     }
@@ -833,7 +837,7 @@ struct vf_check vf_the_check = {
 #endif
     .level = "model_checking",
     .rule = "level-synchronous BFS over all histories of public-API calls of a rule-following client with 3 reference slots: create {int, definite byte/text string, indefinite "
-            "byte string, definite array(2), indefinite array, definite map(1), indefinite map, tag}, decref, intermediate_decref, incref, serialize, copy, load(serialize), "
+            "byte / text string, definite array(2), indefinite array, definite map(1), indefinite map, tag}, decref, intermediate_decref, incref, serialize, copy, load(serialize), "
             "array get (in and out of range), push / push(cbor_move) / push on full, set / replace (in and out of range), add_chunk, tag_set_item (empty and occupied), tag_item, "
             "build_tag, map_add / map_add(cbor_move key) / map_add on full; containers stay acyclic. States are deduplicated by the canonical form of the shadow ownership graph "
             "(kinds, capacities, ordered edges, client references; minimised over slot permutations); every transition replays its history on fresh objects and executes the real call. "
